@@ -109,6 +109,12 @@ def main():
                     sha(lambda: ufo2ft.compileTTF(build_font(d2, lib)))
                     sha(lambda: ufo2ft.compileOTF(build_font(d2, lib)))
                 out["static%d/%s/ttf-after-other-styles" % (i, lib)] = sha(lambda: ufo2ft.compileTTF(build_font(desc, lib)))
+                # an EMPTY non-default layer of the same font object compiled first (TTF and OTF): nothing of it may stay behind
+                e = build_font(desc, lib)
+                e.newLayer("sketches")
+                sha(lambda: ufo2ft.compileTTF(e, layerName="sketches"))
+                sha(lambda: ufo2ft.compileOTF(e, layerName="sketches"))
+                out["static%d/%s/ttf-after-empty-layer" % (i, lib)] = sha(lambda: ufo2ft.compileTTF(e))
                 if mode == "thorough" or i == 0:
                     p = os.path.join(work, "f%d-%s.ufo" % (i, lib))
                     build_font(desc, lib).save(p)
